@@ -37,6 +37,7 @@ TRUSTED = ["crcmod 1.7 (C extension) as CRC-16/CCITT-FALSE"]
 EXPLORED_ONLY = []
 ORACLE_LIMIT = {"quick": 30000, "thorough": 100000}
 WIDTHS = (1, 2, 4, 8)
+OP_RANGE = (1500, 1599)
 DOC = lambda code: code not in core.UNDOCUMENTED and code != 97
 
 # class index: 0 file data, 1 EOF, 2 Finished, 3 ACK, 4 Metadata, 5 NAK, 6 Prompt, 7 Keep Alive
@@ -98,6 +99,43 @@ def _inspect(h):
     return [[int(h.pdu_type)], [int(h.is_file_directive)], _opt(h.pdu_directive_type)]
 
 
+def _holder_state(p):
+    f = _opt_fields(p)
+    return [[len(f)]] + f
+
+
+def _apply_holder_op(h, l):
+    """one operation of Model/FactoryOps.v (holder_op) on the holder object h"""
+    k = l[0] if l else -1
+    if k == 1 and len(l) >= 2:
+        style, data = l[1], l[2:]
+        if style == 1:
+            buf = bytearray(data)
+            pdu = PduFactory.from_raw(buf)
+            h5.scramble(buf)
+            h.pdu = pdu
+        elif style == 2:
+            h.base = PduFactory.from_raw(bytes(data))
+        elif style == 3:
+            h.pdu = PduFactory.from_raw_to_holder(bytes(data)).pdu
+        else:
+            h.pdu = PduFactory.from_raw(bytes(data))
+        return []
+    if k == 2:
+        h.pdu = None; return []
+    if k == 3:
+        return [int(h.pdu_type), int(h.is_file_directive)] + _opt(h.pdu_directive_type)
+    if k == 4:
+        return [h.packet_len]
+    if k == 5:
+        return list(h.pack())
+    if k == 6 and len(l) >= 2 and 0 <= l[1] <= 7:
+        return [_kind(getattr(h, TO[l[1]])())]
+    if k == 7 and len(l) >= 2:
+        h.to_file_data_pdu().file_data = bytearray(l[2:]) if l[1] & 1 else bytes(l[2:]); return []
+    raise RuntimeError("bad op")
+
+
 def impl(op, a):
     with warnings.catch_warnings():
         warnings.simplefilter("ignore")
@@ -129,6 +167,21 @@ def _impl(op, a):
         return _inspect(h) + [[h.packet_len]]
     if op == 1509:
         return _pdu_fields(getattr(PduHolder(None), TO[a[0][0]])())
+    if op == 1520:
+        b1, b2 = a[0], a[1]
+        if a[2] and a[2][0] == 1:
+            buf = bytearray(b1)                     # one receive buffer, used for both PDUs
+            p1 = PduFactory.from_raw(buf)
+            buf[:] = bytes(b2)
+            p2 = PduFactory.from_raw(buf)
+            h5.scramble(buf)
+        else:
+            p1 = PduFactory.from_raw(bytes(b1))
+            p2 = PduFactory.from_raw(bytes(b2))
+        return _holder_state(p1) + _holder_state(p2) + [_res_bytes(PduHolder(p1).pack), _res_bytes(PduHolder(p2).pack)]
+    if op == 1521:
+        h = PduHolder(None)
+        return h5.run_history(a, lambda l: _apply_holder_op(h, l), lambda: _holder_state(h.pdu))
     if 1510 <= op <= 1517:
         p = MK[op - 1510](a)
         b = p.pack()
@@ -255,6 +308,71 @@ def streams(tier, rng):
                 for k in range(8):
                     cases.append((1507, [b, [j], [k]]))
     yield "holder_direct_unpack", "exact", cases
+    # 9. two PDUs decoded in a row through the factory (two buffers, or one receive buffer used twice): the first one
+    #    is looked at again after the second call
+    cases = []
+    for _ in range(4000 if big else 700):
+        k1, k2 = rng.randrange(8), rng.randrange(8)
+        b1, b2 = _valid_packed(rng, k1)[1], _valid_packed(rng, k2)[1]
+        if rng.random() < 0.1:
+            b2 = b2[:rng.randrange(len(b2))]
+        cases.append((1520, [b1, b2, [rng.randrange(2)]]))
+    for n in [511, 512, 513, 1024, 2048, 4096]:           # long file segments (the other kinds have no bulk field)
+        for _ in range(2):
+            a1 = h7._rand_pdu(rng); a1[3] = h7._special_data(rng, n)
+            a2 = h7._rand_pdu(rng); a2[3] = h7._special_data(rng, n + rng.choice([-1, 0, 1]))
+            if h7.valid_fd(a1) and h7.valid_fd(a2):
+                cases.append((1520, [h7.lay(a1), h7.lay(a2), [1]]))
+    yield "two_pdus_in_a_row", "exact", cases
+    # 10. one holder object used again and again: filled through the factory (pdu attribute, deprecated base setter,
+    #     from a bytearray that is overwritten afterwards), emptied, inspected, packed, typed accessors, the held File
+    #     Data PDU edited through the accessor
+    cases = []
+    for _ in range(3000 if big else 500):
+        ops, used = [], []
+        for _ in range(rng.randrange(1, 11)):
+            c = rng.choice([1, 1, 1, 2, 3, 4, 5, 6, 6, 7])
+            if c == 1 and used and rng.random() < 0.35:
+                ops.append([1, rng.randrange(4)] + rng.choice(used))      # the same octets arrive again
+            elif c == 1:
+                k = rng.choice([0, 0, rng.randrange(8)])
+                b = _valid_packed(rng, k)[1]
+                used.append(list(b))
+                r = rng.random()
+                if r < 0.1: b = b[:rng.randrange(len(b))]
+                elif r < 0.15: b = list(b); b[0] ^= 0x40
+                elif r < 0.2 and k: hl = h5._declared(b); b = list(b); b[hl] = 10
+                ops.append([1, rng.randrange(4)] + b)
+            elif c == 6:
+                ops.append([6, rng.randrange(8)])
+            elif c == 7:
+                ops.append([7, rng.randrange(2)] + h7._special_data(rng, rng.choice([0, 1, 5, 64, 512, 600])))
+            else:
+                ops.append([c])
+            if rng.random() < 0.15:
+                ops.append(ops[-1])
+        cases.append((1521, ops + [[5], [5]]))
+    yield "holder_histories", "exact", cases
+    # 11. sizes: File Data PDUs with every file-data length near the multiples of 256 up to 1100 (thorough: every
+    #     length 0..2100), around 4 KiB and at the limit, packed and decoded through the factory; every kind followed by
+    #     0..1100 further octets in the buffer
+    cases = []
+    sweep = (list(range(0, 2101)) if big else sorted({m + d for m in (0, 256, 512, 768, 1024) for d in range(-8, 9) if m + d >= 0} | set(range(1090, 1101))))
+    sweep += [4095, 4096, 4097]
+    for i, n in enumerate(sweep):
+        a = h7._rand_pdu(rng, crc=i % 2); a[3] = h7._special_data(rng, n)
+        cases.append((1510, a))
+        if h7.valid_fd(a):
+            cases.append((1504, [h7.lay(a), [0]]))
+    ids, flags = h7._rand_conf(rng, crc=0, large=1)
+    room = 65535 - 8
+    cases.append((1510, [ids, flags, [h7._rand_off(rng, 1)], [0xFF] * room, [0]]))
+    for n in list(range(0, 1101)) + [4096, 65536]:
+        k = rng.randrange(8)
+        b = _valid_packed(rng, k, crc=0)[1]
+        cases.append((1500, [b + [rng.randrange(256) for _ in range(n)]]))
+        cases.append((1503, [b + [0] * n]))
+    yield "sizes_through_factory", "exact", cases
     # 8. garbage
     cases = []
     for _ in range(30000 if big else 4000):
@@ -286,11 +404,138 @@ def oracle_spec(case, ires):
     return []
 
 
+def _alone(b):
+    """what the factory makes of the octets b on their own: (state lines, pack result) or None when it refuses them"""
+    r = core.run_impl(impl, 1500, [b])
+    if r[0][0] == 1:
+        return None
+    f = r[1:]
+    pk = core.run_impl(impl, 1505, [b])
+    return [[len(f)]] + f, (pk[1] if pk[0][0] == 0 else None)
+
+
+def _split_states(lines, n):
+    """n holder states ([count] then that many lines) from the front of lines -> (states, rest)"""
+    out = []
+    for _ in range(n):
+        c = lines[0][0]
+        out.append(lines[:1 + c]); lines = lines[1 + c:]
+    return out, lines
+
+
+def _fd_expected_pack(state):
+    """octets a held File Data PDU has to pack to, from its own views (lines as c07._fields)"""
+    hd, ids, flags, lens, off, data, meta = state[2:9]
+    st = {"hd": hd, "ids": ids, "flags": flags, "off": off, "data": data, "meta": meta}
+    return h7.fd_pack_expect(st)
+
+
+def _check_holder_history(ops, body):
+    prev = [[1], [-1]]
+    held = None          # class index, None for an empty holder
+    clean = None         # the octets the held PDU was decoded from, while it has not been edited
+    prev_pack = None
+    for i, l in enumerate(ops):
+        status = body[0]
+        (state,), body = _split_states(body[1:], 1)
+        out, body = body[0], body[1:]
+        where = "operation %d %s" % (i, l[:10])
+        k = l[0]
+        if status[0] == 1 and (status[1] == 99 or (status[1] in core.UNDOCUMENTED and not (
+                (k in (6, 7) and status[1] == core.E_TYPE) or (k == 3 and held is None and status[1] == core.E_ASSERT)))):
+            return ("C12/PduHolder.history/undocumented-error", "%s raised %s" % (where, core.ERR_NAMES.get(status[1], status[1])))
+        if status[0] == 1 or k in (3, 4, 5, 6):
+            if state != prev:
+                return ("C12/PduHolder.history/changed-by-%s" % ("refused-call" if status[0] == 1 else "inspection"),
+                        "%s changed what the holder holds: %s -> %s" % (where, str(prev)[:120], str(state)[:120]))
+        if k != 5:
+            prev_pack = None
+        if k == 1 and status[0] == 0:
+            al = _alone(l[2:])
+            if al is None or state != al[0]:
+                return ("C12/PduHolder.history/holds-other-pdu", "%s: the holder holds %s, the factory alone decodes these octets to %s" % (
+                    where, str(state)[:160], str(al[0] if al else None)[:160]))
+            j = octet_kind(l[2:])
+            held = j if isinstance(j, int) else None
+            if state[1] != [held if held is not None else -1]:
+                return ("C12/PduFactory.from_raw/wrong-kind", "%s: octets denote class %s, holder holds class index %s" % (where, j, state[1]))
+            if held == 0:
+                r = h7._check_decoded(l[2:], [[0]] + state[2:9], "fold-in")
+                if r:
+                    return ("C12/PduFactory.from_raw/not-what-the-octets-say", r[1])
+            clean = al[1]
+        elif k == 2 and status[0] == 0:
+            held, clean = None, None
+            if state != [[1], [-1]]:
+                return ("C12/PduHolder.history/not-emptied", "%s: holder holds %s" % (where, str(state)[:120]))
+        elif k == 3 and status[0] == 0:
+            exp = None if held is None else ([1, 0, 0] if held == 0 else [0, 1, 1, CODE[held]])
+            if exp is None or out != exp:
+                return ("C12/PduHolder.inspectors/value", "%s: holder of class %s reports %s" % (where, held, out))
+        elif k == 4 and status[0] == 0:
+            exp = 0 if held is None else state[5][1] if held == 0 else len(clean) - 1 if clean is not None and clean[0] == 0 else None
+            if exp is not None and out != [exp]:
+                return ("C12/PduHolder.packet_len/value", "%s: %s, the held PDU has %s octets" % (where, out, exp))
+        elif k == 5 and status[0] == 0:
+            exp = [] if held is None else clean[1:] if clean is not None and clean[0] == 0 else None
+            if held == 0 and exp is None:
+                e = _fd_expected_pack(state)
+                exp = e if isinstance(e, list) else None
+            if exp is not None and out != exp:
+                return ("C12/PduHolder.pack/octets", "%s: packed %s.. (%d octets), expected %s.. (%d octets)" % (where, out[:24], len(out), exp[:24], len(exp)))
+            if prev_pack is not None and out != prev_pack:
+                return ("C12/PduHolder.pack/not-repeatable", "%s: two packs in a row differ" % where)
+            prev_pack = out
+        elif k == 6:
+            if (status[0] == 0) != (held == l[1]) or (status[0] == 0 and out != [held]) or (status[0] == 1 and status[1] != core.E_TYPE):
+                return ("C12/PduHolder.%s/table" % TO[l[1]], "%s on a holder of class %s: %s %s" % (where, held, status, out))
+        elif k == 7:
+            if held != 0:
+                if status[0] == 0 or status[1] != core.E_TYPE:
+                    return ("C12/PduHolder.to_file_data_pdu/table", "%s on a holder of class %s: %s" % (where, held, status))
+            elif status[0] == 0:
+                clean = None
+                hd, ids, flags, lens, off, data, meta = state[2:9]
+                req = h7.fd_required({"flags": flags, "data": list(l[2:]), "meta": meta})
+                if data != list(l[2:]) or hd[2] != req or lens[1] != lens[0] + req:
+                    return ("C11/FileDataPdu.setters/length", "%s: the held PDU has %d octets of file data, data field length %d, lengths %s; "
+                            "expected %d octets and a data field of %d" % (where, len(data), hd[2], lens, len(l) - 2, req))
+        prev = state
+    return None
+
+
 def oracle(case, ires, sres):
     """The property itself, evaluated on the implementation's observable behaviour."""
     op, a = case
     err = ires[0][0] == 1
     code = ires[0][1] if err else None
+    if op == 1520:
+        a1, a2 = _alone(a[0]), _alone(a[1])
+        if err:
+            if a1 is not None and a2 is not None:
+                return ("C12/PduFactory.from_raw/earlier-pdu-changed", "each PDU alone is decoded, the two in a row raise %s%s" % (
+                    core.ERR_NAMES.get(code, code), " (the first PDU keeps a view of the receive buffer)" if code == 99 else ""))
+            if not DOC(code):
+                return ("C12/PduFactory.from_raw/undocumented-error", "from_raw escaped with %s" % core.ERR_NAMES.get(code, code))
+            return None
+        (s1, s2), rest = _split_states(ires[1:], 2)
+        if a1 is None or a2 is None:
+            return ("C12/PduFactory.from_raw/accepts-in-a-row", "octets the factory refuses on their own were decoded")
+        for b, st_ in ((a[0], s1), (a[1], s2)):
+            if st_[1] == [0]:
+                r = h7._check_decoded(b, [[0]] + st_[2:9], "fold-in")
+                if r:
+                    return ("C12/PduFactory.from_raw/not-what-the-octets-say", r[1])
+        if s1 != a1[0] or rest[0] != a1[1]:
+            return ("C12/PduFactory.from_raw/earlier-pdu-changed", "the first PDU, looked at after the second was decoded: %s (packs to %s..); "
+                    "decoded alone: %s (packs to %s..)" % (str(s1)[:200], rest[0][:16], str(a1[0])[:200], (a1[1] or [])[:16]))
+        if s2 != a2[0] or rest[1] != a2[1]:
+            return ("C12/PduFactory.from_raw/later-pdu-differs", "the second PDU %s differs from what it is decoded to alone %s" % (str(s2)[:200], str(a2[0])[:200]))
+        return None
+    if op == 1521:
+        if err:
+            return ("C12/PduHolder.history/undocumented-error", "the history as a whole raised %s" % core.ERR_NAMES.get(code, code))
+        return _check_holder_history(a, ires[1:])
     if 1510 <= op <= 1517:
         k = op - 1510
         if not VALID[k](a):
@@ -309,6 +554,11 @@ def oracle(case, ires, sres):
             return ("C12/%s.pack/layout" % NAMES[k], "packed octets differ from the standard's layout")
         if ires[3] != [0] + exp:
             return ("C12/PduFactory.from_raw/repack", "%s from the factory re-packs to %s, original %s" % (NAMES[k], ires[3][:40], exp[:40]))
+        al = _alone(exp)
+        if al is not None:
+            m = h5.alias_probe(PduFactory.from_raw, _holder_state, exp, al[0])
+            if m:
+                return ("C12/PduFactory.from_raw/aliases-input-buffer", m)
         return None
     if op in (1500, 1505):
         b = a[0]
@@ -321,6 +571,9 @@ def oracle(case, ires, sres):
             got = ires[1][0]
             if k == "short" or (k is None and got != -1) or (k is not None and got != k):
                 return ("C12/PduFactory.from_raw/wrong-kind", "octets %s denote class %s, factory returned class index %s" % (b[:24], k, got))
+            m = h5.alias_probe(PduFactory.from_raw, _opt_fields, b, ires[1:])
+            if m:
+                return ("C12/PduFactory.from_raw/aliases-input-buffer", m)
         return None
     if op in (1501, 1502):
         b = a[0]
